@@ -274,6 +274,28 @@ theorem fromReflection_rejects (ε : K) (hε : ε < 1) (evals : List K)
         refine ⟨i, by simp [hi], by simp⟩
       simpa using hall _ hmem
 
+/-- the second stage of the acceptance decision: a `(-1)`-eigenvector that is not spacelike is
+refused whatever the spectrum -/
+theorem fromReflection_rejects_nonspacelike (ε : K) (evals : List K) (vnorm : K)
+    (h : vnorm ≤ ε) : fromReflectionAccepts ε evals vnorm = false := by
+  unfold fromReflectionAccepts
+  simp [not_lt.2 h]
+
+/-- … and this is what separates a reflection from the point reflection `x ↦ x − 2⟨x,p⟩/⟨p,p⟩ p`
+about a *timelike* `p` (the negatively scaled half-turn), which is also an involutive isometry with
+spectrum `(-1, 1, …, 1)`: every `(-1)`-eigenvector of `reflMat d` has Minkowski norm
+`(⟨v,d⟩/⟨d,d⟩)²·⟨d,d⟩`, of the sign of `⟨d,d⟩` — spacelike for a reflection across a wall,
+timelike for the point reflection, which is therefore rejected -/
+theorem neg_eigvec_sign (d v : Fin (n + 1) → K) (hd : mink d d ≠ 0)
+    (hv : v ᵥ* reflMat d = fun i => -v i) :
+    mink v v = (mink v d / mink d d) ^ 2 * mink d d := by
+  have h2 : NeZero (2 : K) := ⟨two_ne_zero⟩
+  have h := neg_eigvec_unique d v hd hv
+  have e : mink (fun i => (mink v d / mink d d) * d i) (fun i => (mink v d / mink d d) * d i)
+      = (mink v d / mink d d) ^ 2 * mink d d := by
+    rw [mink_mul_left, mink_mul_right]; ring
+  rw [← e, ← h]
+
 /-! ## fixed points: selection of the eigenvectors -/
 
 theorem keyLe_trans (ε : K) (a b c : EigInfo K) (h1 : keyLe ε a b = true)
